@@ -93,9 +93,6 @@ func (p *parser) parseBinOp(left MetricExpr, minPrecedence int) (MetricExpr, err
 			if v, ok := left.(*LiteralExpr); ok {
 				return nil, errors.Errorf("unexpected left scalar %v in a logical operation %s", v.Value, op)
 			}
-			if v, ok := right.(*LiteralExpr); ok {
-				return nil, errors.Errorf("unexpected right scalar %v in a logical operation %s", v.Value, op)
-			}
 		}
 
 		for {
@@ -112,6 +109,14 @@ func (p *parser) parseBinOp(left MetricExpr, minPrecedence int) (MetricExpr, err
 			right, err = p.parseBinOp(right, nextPrecedence)
 			if err != nil {
 				return nil, err
+			}
+		}
+
+		if op.IsLogic() {
+			// Check the whole right operand: operators that bind tighter than op
+			// have been folded into it by now (as in `a or 0 * b`).
+			if v, ok := right.(*LiteralExpr); ok {
+				return nil, errors.Errorf("unexpected right scalar %v in a logical operation %s", v.Value, op)
 			}
 		}
 
